@@ -27,7 +27,7 @@ From Coq Require Import NArith List Permutation.
 From DTN Require Import Lib.Bytes Model.Btpu.
 From Coq Require Import ZArith.
 From DTN Require Import Gen.BtpuBudget.
-From DTN Require Import Proofs.BtpuProofs Proofs.BtpuSendProofs Proofs.BtpuRecvProofs Proofs.BtpuTopProofs Proofs.BtpuBudgetProofs.
+From DTN Require Import Proofs.BtpuProofs Proofs.BtpuSendProofs Proofs.BtpuRecvProofs Proofs.BtpuTopProofs Proofs.BtpuBudgetProofs Proofs.BtpuIndepProofs.
 Import ListNotations.
 Local Open Scope N_scope.
 
@@ -169,6 +169,43 @@ Theorem C20_reassembly_any_hints :
 Proof. exact reassembly_h. Qed.
 Print Assumptions C20_reassembly_any_hints.
 
+(** ** Several transfers at once: different keys do not interact *)
+
+(** The table of transfers in progress is keyed by the channel -- local
+    interface, PEER address, local address, VLAN tag -- and the transfer
+    number.  For every key [k], every receiver state and every sequence of
+    arriving transfer messages [l] (of any transfers, complete or not,
+    interleaved in any way): what is held for [k] afterwards and the bundles
+    completed for [k] are what they are when only the messages of key [k]
+    arrive ([for_key k l] = those messages, in their order). *)
+Theorem C20_transfers_of_different_peers_independent :
+  forall (k : key) (l : list item) (st : rx),
+  plookup k (r_prog (fold_left recv_item l st)) = plookup k (r_prog (fold_left recv_item (for_key k l) st))
+  /\ completions k st l = completions k st (for_key k l).
+Proof. exact independent. Qed.
+Print Assumptions C20_transfers_of_different_peers_independent.
+
+Theorem C20_key_tells_peers_apart : forall (a b : chan) (x y : N),
+  c_peer a <> c_peer b -> key_eqb (a, x) (b, y) = false.
+Proof. exact key_eqb_peer. Qed.
+Print Assumptions C20_key_tells_peers_apart.
+
+(** Hence: whatever else arrives in between, if the segments of one transfer
+    are among the arrivals each exactly once in any order (and nothing was in
+    progress under its key), exactly that bundle is completed for the key,
+    exactly once, and its entry is gone. *)
+Theorem C20_interleaved_transfer_reassembles :
+  forall (hs : list hint) (mtu xid : N) (conv : chan) (data : bytes) (st : rx)
+         (l : list item) (p : list (N * bytes * bool)),
+  xfer_okb hs mtu xid data = true ->
+  plookup (conv, xid) (r_prog st) = None ->
+  Permutation p (segments hs mtu data) ->
+  for_key (conv, xid) l = map (seg_item conv xid) p ->
+  completions (conv, xid) st l = [data]
+  /\ plookup (conv, xid) (r_prog (fold_left recv_item l st)) = None.
+Proof. exact interleaved_transfer. Qed.
+Print Assumptions C20_interleaved_transfer_reassembles.
+
 (** ** Tie to the source: Gen/BtpuBudget.v is regenerated from btpu/agent.py
     and btpu/messages.py on every run; the model's sender is what it says. *)
 
@@ -200,6 +237,19 @@ Theorem C20_tie_types_widths : forall hs x i d,
       /\ BtpuBudget.flags_bits + BtpuBudget.len_bits = 24).
 Proof. intros. split; [apply tie_types|exact tie_widths]. Qed.
 Print Assumptions C20_tie_types_widths.
+
+(** [EthernetChannel.key] (regenerated) is the tuple of all four dataclass
+    fields, each exactly once, and [_recv_msg] keys its table by it and the
+    transfer number; the model's key equality is equality of exactly these. *)
+Theorem C20_tie_key :
+  BtpuBudget.chan_nfields = 4%nat
+  /\ length BtpuBudget.key_fields = BtpuBudget.chan_nfields
+  /\ forallb (fun i => existsb (Nat.eqb i) BtpuBudget.key_fields) (seq 0 BtpuBudget.chan_nfields) = true
+  /\ BtpuBudget.rx_key_is_conv_key_and_xfer_num = true
+  /\ (forall a b x y, key_eqb (a, x) (b, y) = true <->
+        c_if a = c_if b /\ c_peer a = c_peer b /\ c_local a = c_local b /\ c_vlan a = c_vlan b /\ x = y).
+Proof. exact tie_key. Qed.
+Print Assumptions C20_tie_key.
 
 (** One iteration of the code's loop at offset [off] is one step of [chunk]
     on the remainder [skipn off data]. *)
